@@ -114,6 +114,13 @@ func ExecRun(st *Store, sc Scenario) RunResult { return execRun(st, sc, false) }
 // addresses and which uids the scenario involves.
 func Probe(st *Store, sc Scenario) RunResult {
 	sc.Env = Env{WatchErrAt: -1}
+	for _, e := range sc.Univ {
+		if e.Fin {
+			// a prune wait over a finalizer-held object only ends by its timeout: the probe
+			// always has one, so that it sees the whole run (timeouts do not change requests)
+			sc.Opts.PruneTimeout = true
+		}
+	}
 	return execRun(st.Clone(), sc, true)
 }
 
